@@ -213,3 +213,24 @@ Definition ctl_signature (c : ctl_case) : N * N * N * N :=
           go rest st' (u', d', r', sh')
       end in
   go (cc_steps c) (ctl_init (cc_rules c)) (0, 0, 0, 0).
+
+(* Large final states (reload of > 1024 cached names): the table of the live cache computed with ctl_table
+   (one linear fold per address; equal to cache_table for a dump with one entry per key, lemma tracks_table)
+   instead of cache_table (quadratic in the number of entries). *)
+Definition cache_of_live (live : list (N * cache_entry)) : cache :=
+  map (fun oe => ({| k_base := fst oe; k_scope := 0 |},
+                  {| ce_e := snd oe; ce_owner := 0; ce_fqdn := 0; ce_deadline := 0; ce_last := 0; ce_id := 0 |})) live.
+
+Definition check_live_big (live : list (N * cache_entry)) (shadow : list (N * N)) (univ : list N) : bool :=
+  let c := cache_of_live live in
+  forallb (fun ip => optN_eqb (option_map snd (find (fun kv => fst kv =? ip) shadow)) (ctl_table_entry c ip)) univ
+  && forallb (fun kv => existsb (N.eqb (fst kv)) univ) shadow.
+
+Definition check_ctl_case_big (c : list (list (N * cache_entry) * list (N * N)) * list N) : list N :=
+  let fix go (steps : list (list (N * cache_entry) * list (N * N))) (n : N) : list N :=
+      match steps with
+      | [] => []
+      | (live, shadow) :: rest =>
+          (if check_live_big live shadow (snd c) then [] else [n]) ++ go rest (n + 1)
+      end in
+  go (fst c) 0.
